@@ -107,63 +107,6 @@ impl Acc for A {
 pub fn run(run: &mut Run) -> PResult {
     run.rule = "every five-card subset in canonical order plus seeded slot orders (quick 1, thorough 4): is_flush / is_straight / is_straight_flush / is_wheel against definitions computed from the documented card fields, agreement with the category obtained by ranking the same hand, or_rank_bits / and_bits against their definitions, deprecated free functions against the methods. Non-trivial = straights, flushes and the hands with a repeated rank whose distinct ranks span exactly five places (where a span test and a real straight test differ); distinct = distinct subsets".into();
     super::regress::replay_dir(run, "C13", check_case)?;
-    let orders = if run.tier == Tier::Thorough { 4 } else { 1 };
-    let seed = run.seed;
-    let t = poker::tables();
-    let acc = par_tuples::<5, A>(52, true, || A { n: 0, nontrivial: 0, classes: [0; 5], fail: None, sample: None }, |acc, c| {
-        let w = words_of_ci(c);
-        let m = model(&w);
-        acc.n += 1;
-        let p = super::multi::pack(c);
-        let nt = m.flush || m.straight || m.span5_paired;
-        if nt {
-            acc.nontrivial += 1;
-        }
-        acc.classes[0] += m.flush as u64;
-        acc.classes[1] += m.straight as u64;
-        acc.classes[2] += m.wheel as u64;
-        acc.classes[3] += m.span5_paired as u64;
-        acc.classes[4] += (m.flush && m.straight) as u64;
-        let cat = poker::cat_of_ord(t, poker::ord5_sorted(t, *c));
-        for k in 0..=orders {
-            let a = if k == 0 { w } else { engine::apply_perm(&w, &perm_from_index::<5>(mix2(seed ^ (0xC13 + k as u64), p) % 120)) };
-            let r = guard(|| {
-                let h = Five::from(a);
-                let (fl, st) = (h.is_flush(), h.is_straight());
-                #[allow(deprecated)]
-                let dep = ckc_rs::evaluate::is_flush(a) == fl && ckc_rs::evaluate::or_rank_bits(a) == h.or_rank_bits() as usize;
-                let name = h.hand_rank().name as u8;
-                // StraightFlush = 0, Flush = 3, Straight = 4 in declaration order: checked by text in examine()
-                let _ = name;
-                fl == m.flush && st == m.straight && h.is_straight_flush() == (m.flush && m.straight) && h.is_wheel() == m.wheel && h.or_rank_bits() == m.or_rank && h.and_bits() == m.and_bits && dep
-            });
-            let mut bad = r != Ok(true);
-            if !bad {
-                // category agreement through the model's category of the same hand and the crate's rank text
-                let want_sf = cat == poker::CAT_SF;
-                let want_f = cat == poker::CAT_FLUSH;
-                let want_s = cat == poker::CAT_STRAIGHT;
-                bad = want_sf != (m.flush && m.straight) || want_f != (m.flush && !m.straight) || want_s != (m.straight && !m.flush);
-                if bad {
-                    panic!("model category and model predicates disagree on {:?}", c);
-                }
-            }
-            if bad || (nt && k == 0) {
-                // slow path: always for the non-trivial hands (also checks the crate's own category text)
-                if let Err((cl, msg)) = examine(&a) {
-                    acc.fail = Some((a, cl, msg));
-                    return false;
-                }
-                if bad {
-                    panic!("fast and slow paths disagree on {:?}", a);
-                }
-            }
-        }
-        if acc.sample.is_none() && m.span5_paired && p % 211 == 3 {
-            acc.sample = Some(w);
-        }
-        true
-    });
     if !run.is_twin() {
         // call sequences: the predicates (deprecated free functions included) must not depend on earlier calls
         use super::multi::{neighbour, NEIGHBOUR_KINDS};
@@ -247,6 +190,72 @@ pub fn run(run: &mut Run) -> PResult {
             return run.violation("C13.sequence", &sig, json!({"sequence": [hand_json(&items[a]), hand_json(&items[b])]}), &format!("after the predicates were called on [{}]: {}", card::render_hand(&items[a]), m));
         }
     }
+    let orders = if run.tier == Tier::Thorough { 4 } else { 1 };
+    let seed = run.seed;
+    let t = poker::tables();
+    let acc = par_tuples::<5, A>(52, true, || A { n: 0, nontrivial: 0, classes: [0; 5], fail: None, sample: None }, |acc, c| {
+        let w = words_of_ci(c);
+        let m = model(&w);
+        acc.n += 1;
+        let p = super::multi::pack(c);
+        let nt = m.flush || m.straight || m.span5_paired;
+        if nt {
+            acc.nontrivial += 1;
+        }
+        acc.classes[0] += m.flush as u64;
+        acc.classes[1] += m.straight as u64;
+        acc.classes[2] += m.wheel as u64;
+        acc.classes[3] += m.span5_paired as u64;
+        acc.classes[4] += (m.flush && m.straight) as u64;
+        let cat = poker::cat_of_ord(t, poker::ord5_sorted(t, *c));
+        for k in 0..=orders {
+            let a = if k == 0 { w } else { engine::apply_perm(&w, &perm_from_index::<5>(mix2(seed ^ (0xC13 + k as u64), p) % 120)) };
+            let r = guard(|| {
+                let h = Five::from(a);
+                let (fl, st) = (h.is_flush(), h.is_straight());
+                #[allow(deprecated)]
+                let dep = ckc_rs::evaluate::is_flush(a) == fl && ckc_rs::evaluate::or_rank_bits(a) == h.or_rank_bits() as usize;
+                let name = h.hand_rank().name as u8;
+                // StraightFlush = 0, Flush = 3, Straight = 4 in declaration order: checked by text in examine()
+                let _ = name;
+                fl == m.flush && st == m.straight && h.is_straight_flush() == (m.flush && m.straight) && h.is_wheel() == m.wheel && h.or_rank_bits() == m.or_rank && h.and_bits() == m.and_bits && dep
+            });
+            let mut bad = r != Ok(true);
+            if !bad {
+                // category agreement through the model's category of the same hand and the crate's rank text
+                let want_sf = cat == poker::CAT_SF;
+                let want_f = cat == poker::CAT_FLUSH;
+                let want_s = cat == poker::CAT_STRAIGHT;
+                bad = want_sf != (m.flush && m.straight) || want_f != (m.flush && !m.straight) || want_s != (m.straight && !m.flush);
+                if bad {
+                    panic!("model category and model predicates disagree on {:?}", c);
+                }
+            }
+            if bad || (nt && k == 0) {
+                // slow path: always for the non-trivial hands (also checks the crate's own category text)
+                if let Err((cl, msg)) = examine(&a) {
+                    acc.fail = Some((a, cl, msg));
+                    return false;
+                }
+                if bad {
+                    let msg = engine::unstable_message(&format!("five-card hand [{}]", card::render_hand(&a)), || {
+                        guard(|| {
+                            let h = Five::from(a);
+                            #[allow(deprecated)]
+                            let dep = ckc_rs::evaluate::is_flush(a) == h.is_flush() && ckc_rs::evaluate::or_rank_bits(a) == h.or_rank_bits() as usize;
+                            h.is_flush() == m.flush && h.is_straight() == m.straight && h.is_straight_flush() == (m.flush && m.straight) && h.is_wheel() == m.wheel && h.or_rank_bits() == m.or_rank && h.and_bits() == m.and_bits && dep
+                        }) == Ok(true)
+                    });
+                    acc.fail = Some((a, "C13.unstable", msg));
+                    return false;
+                }
+            }
+        }
+        if acc.sample.is_none() && m.span5_paired && p % 211 == 3 {
+            acc.sample = Some(w);
+        }
+        true
+    });
     run.generator(&format!("five-subsets, canonical + {} seeded orders", orders), "exhaustive", Some(choose(52, 5)), acc.n, acc.nontrivial, "cases = subsets");
     run.class("flush (incl. straight flush)", acc.classes[0]);
     run.class("straight (incl. straight flush)", acc.classes[1]);
